@@ -27,8 +27,9 @@ name = "threads"
 THREAD_PROFILE = {
     "frontends": [("Solver", 5), ("SolverCacheless", 2), ("SolverComposite", 3), ("SolverHybrid", 1), ("SolverReplacement", 1)],
     "length": (3, 14),
-    "weights": {"forget": 0, "gc": 1, "backend_downsize": 1, "branch": 5},
+    "weights": {"forget": 0, "gc": 1, "backend_downsize": 1, "branch": 5, "is_true": 6, "is_false": 6},
     "reuse_pct": 15,
+    "truth_template_pct": 50,
 }
 
 
@@ -199,6 +200,36 @@ def execute(rec, gc_monitor=False):
                     "tb": tb[-900:]}}}
             else:
                 out = {"status": "harness_error", "error": tb}
+    solo_compared = 0
+    if failure is None and out["status"] == "ok" and not gc_monitor:
+        # oracle (iii): every thread's history is run again ALONE (cold caches, no scheduler) and every determined answer
+        # must be the one the thread got under the schedule.  Answers the reference already pins down (sat, optimum,
+        # exhaustive evals) are equal by construction; what this adds are the answers the reference only bounds:
+        # is_true / is_false (False is always allowed, but it must not depend on the other threads).
+        try:
+            for i, m in enumerate(machines):
+                setup_run(claripy, cfg)
+                sseam = Z3Seam()
+                sseam.install()
+                solo = Machine({"config": cfg, "ops": rec["threads"][i]["ops"]}, claripy, sseam)
+                try:
+                    solo.run()
+                except Violation:
+                    continue  # the history is wrong already when run alone: not a C20 matter
+                finally:
+                    sseam.uninstall()
+                for a, b in zip(m.answers, solo.answers):
+                    if a[0] != b[0] or a[1] != b[1]:
+                        break
+                    x, y = a[2], b[2]
+                    if isinstance(x, list) and isinstance(y, list) and x and y and x[0] == y[0] == "truth":
+                        solo_compared += 1
+                        if x != y:
+                            raise Violation("answer-differs-from-solo-run", {
+                                "op": a[1], "cls": "threads", "thread": i, "op_index": a[0], "threaded": x, "solo": y,
+                                "spec": rec["threads"][i]["ops"][a[0]].get("e")})
+        except Violation as v:
+            out = {"status": "violation", "violation": {"clause": v.clause, "detail": v.detail}}
     h = hashlib.sha256(sched.digest().encode())
     for m in machines:
         h.update(m.digest().encode())
@@ -207,6 +238,7 @@ def execute(rec, gc_monitor=False):
     for m in machines:
         for k in ("ops", "queries", "adds"):
             st[k] += m.stats[k]
+    st["solo_compared"] = solo_compared
     st.update(steps=sched.steps, switches=sched.switches, line_events=sched.events, lock_contended=lock.contended)
     out["stats"] = st
     out["nontrivial"] = sched.switches >= 2 and st["queries"] >= 2
